@@ -524,6 +524,14 @@ func RunC10(c *Ctx) {
 	}
 }
 
+type declineAllArr struct{}
+
+func (declineAllArr) HandleArrayValue(data []byte) (int, error) { return 0, nil }
+
+type declineAllObj struct{}
+
+func (declineAllObj) HandleObjectValue(fieldname, data []byte) (int, error) { return 0, nil }
+
 // hostile runs both traversals under hostile handler programs, then the generic decoder as handler.
 func hostile(c *Ctx, cs *h.Case, d []byte, freshp, longp *rjson.Buffer) {
 	fresh, long := freshp, longp
@@ -544,9 +552,33 @@ func hostile(c *Ctx, cs *h.Case, d []byte, freshp, longp *rjson.Buffer) {
 			why := ""
 			classes := map[string]int{}
 			big := len(d) > 100000
+			// every third program re-enters the library from inside the callback with the traversal's own Buffer
+			// (the documented way to save allocations) before it answers with its hostile offset (seeded change
+			// C10r10-m1: a 'busy' flag in the Buffer that panics on what it takes for concurrent use)
+			var reenter *rjson.Buffer
+			if prog%3 == 2 && !big {
+				reenter = bufOf(prog, fresh, long)
+				if reenter != nil {
+					c.Rec.C("hostile_programs_that_reenter_with_the_traversals_buffer")
+				}
+			}
 			pr.answer = func(i, off int, data []byte) (int, error) {
 				if i > 64 && big { // bound the work on megabyte inputs
 					return 0, nil
+				}
+				if reenter != nil && i < 8 {
+					switch (i + prog) % 5 {
+					case 0:
+						rjson.SkipValue(data, reenter)
+					case 1:
+						rjson.SkipValueFast(data, reenter)
+					case 2:
+						rjson.Valid(data, reenter)
+					case 3:
+						rjson.HandleArrayValues(data, declineAllArr{}, reenter)
+					default:
+						rjson.HandleObjectValues(data, declineAllObj{}, reenter)
+					}
 				}
 				exact := 0
 				if !big {
